@@ -190,6 +190,20 @@ def dl_post(check):
                    "update histories and compared with the table of the libraries loaded at each point" % len(progs))
 
 
+def rtti_post(check):
+    """C10 tier B: the same kind of generated programs under a user-supplied RTTI facet (integer ids
+    returned by a virtual function) and under deferred_static_rtti (ids assigned after the
+    registration objects were constructed); every failure counts for C10"""
+    import gen_disp
+    import tierb
+    from vfcheck import base_seed
+    progs = gen_disp.programs(check.tier, base_seed() % 100000 + 1010, focus="C10")
+    tierb.run_programs(check, progs, max_parallel=12, remap_prefix="C10:custom-rtti-program:")
+    check.extra_evidence["tier_b_programs"] = len(progs)
+    check.rule += ("; plus tier B: %d generated programs (real classes, all registration styles and APIs) under a custom "
+                   "rtti facet and under deferred_static_rtti, self-checked against the Python oracle" % len(progs))
+
+
 def clean_emit(check):
     import os, shutil
     emit = os.path.join(check.outdir, "emit")
@@ -224,6 +238,8 @@ def harness_plan(prop, tier, quick, thorough, min_eval=1000, policy=None, extra=
         c.post = disp_post
     if prop == "C07":
         c.post = dl_post
+    if prop == "C10":
+        c.post = rtti_post
     spec = quick if tier == "quick" else thorough
     k = 0
     for flavour, procs, cases in spec:
